@@ -17,6 +17,8 @@ route it understood.
 from __future__ import annotations
 
 import asyncio
+import contextlib
+import io
 import ipaddress
 import os
 import signal
@@ -256,9 +258,19 @@ class Run:
         how, code, error = 'returned', None, None
         old_argv = sys.argv
         sys.argv = ['healthcheck'] + self.argv
+        real_loop = hc.loop
+
+        def loop(options: Any) -> None:
+            # pass-through: note what main() hands to the real loop, then run the real loop
+            self.options.loop_ips = list(options.ips)
+            real_loop(options)
+
         try:
-            self.options = hc.parse()
+            with contextlib.redirect_stderr(io.StringIO()):
+                self.options = hc.parse()
+            self.options.loop_ips = None
             with (
+                patch.object(hc, 'loop', loop),
                 patch.object(hc, 'sys', _Proxy(sys, stdout=out, stdin=_In(self))),
                 patch.object(hc, 'os', _Proxy(os, path=_Proxy(os.path, exists=exists))),
                 patch.object(hc, 'time', _Proxy(time, sleep=self.on_sleep)),
@@ -416,11 +428,32 @@ class Daemon:
                 asyncio.run(coro)
         except Exception as e:  # the daemon must not raise on a line either
             self.answers.append(f'raised {type(e).__name__}')
-        res: dict = {'answers': list(self.answers), 'accepted': self.answers == ['done'], 'applied': []}
+        res: dict = {'answers': list(self.answers), 'accepted': self.answers == ['done'], 'applied': [], 'reason': 'accepted'}
+        if not res['accepted']:
+            res['reason'] = self.why(line)
         for action, peers, route in self.applied:
             res['applied'].append({'action': action, 'peers': sorted(p.split(' ')[1] for p in peers), **describe_route(route)})
         self.cache[line] = res
         return res
+
+
+def _why(self: Daemon, line: str) -> str:
+    """Which stage of the daemon refuses a line (for the canonical form of a finding)."""
+    from exabgp.reactor.api.dispatch.common import NoMatchingPeers, UnknownCommand
+    from exabgp.reactor.api.dispatch.v6 import dispatch_v6
+
+    try:
+        handler, peers, remaining = dispatch_v6(line, self.reactor, 'healthcheck')
+    except UnknownCommand:
+        return 'unknown-command'
+    except NoMatchingPeers:
+        return 'no-matching-peers'
+    except Exception as e:
+        return 'dispatch-raised-' + type(e).__name__
+    return 'route-refused'
+
+
+Daemon.why = _why  # type: ignore[attr-defined]
 
 
 def describe_route(route: Any) -> dict:
